@@ -5,6 +5,7 @@ root = os.path.dirname(os.path.dirname(os.path.abspath(__file__)))
 inbox = os.path.join(root, "seeded", "_inbox")
 for name in sorted(os.listdir(inbox)):
     d = os.path.join(inbox, name)
+    if os.path.islink(d): continue
     conf = os.path.join(d, "confirm.txt"); chk = os.path.join(d, "check_quick.txt")
     if not (os.path.exists(conf) and os.path.exists(chk)): continue
     ctext = open(conf).read().strip().splitlines()
